@@ -928,7 +928,12 @@ func classifyCrash(prop string, cur []byte, stderr, replayDir string) (Violation
 		spin := func(dump string) string {
 			for _, g := range strings.Split(dump, "\n\n") {
 				lines := strings.Split(g, "\n")
-				if len(lines) < 2 || !(strings.Contains(lines[0], "[running") || strings.Contains(lines[0], "[runnable")) {
+				// spinning in library code, or parked on a lock (sync.Mutex / RWMutex /
+				// WaitGroup: not "durably" blocked, so the simulation cannot step) that
+				// library code tried to take
+				if len(lines) < 2 || !(strings.Contains(lines[0], "[running") || strings.Contains(lines[0], "[runnable") ||
+					strings.Contains(lines[0], "[sync.Mutex.Lock") || strings.Contains(lines[0], "[sync.RWMutex") ||
+					strings.Contains(lines[0], "[semacquire") || strings.Contains(lines[0], "[sync.WaitGroup.Wait")) {
 					continue
 				}
 				for _, l := range lines[1:] {
